@@ -3,6 +3,7 @@ import GlyModel.Api.Query
 import GlyProofs.Front.CreateLemmas
 import GlyProofs.Api.EmbedLemmas
 import GlyProofs.Api.Leaves
+import GlyProofs.Api.Depth
 import GlyProofs.Front.ComponentsFloat
 /-
   C16 — Structural queries agree with the structure. (Property theorems only.)
@@ -185,5 +186,22 @@ theorem C16_leaf_count (F : GF) (n : Nat) : (leafIds F n).length = leaves F := b
       have h2 := ihr (n + 1 + (GF.cons l2 n2 k2 r2).size)
       show ([] ++ leafIds (GF.cons l2 n2 k2 r2) (n + 1) ++ leafIds rest (n + 1 + (GF.cons l2 n2 k2 r2).size)).length = _
       simp only [List.nil_append, List.length_append, h1, h2, leaves]
+
+open Gly.Plan in
+/-- **`summary()["depth"]`** (`max(nx.shortest_path_length(parse_tree, 0).values())`, Model `depthOf`: the largest number of edges
+    between node 0 and a node, found by following the parent edges): for every written glycan without floating parts it is the
+    number of residues on the longest chain written to the left of the reducing end (`heightGF` of the compositional reading) –
+    `levelOf_spec`: every node's level is its nesting depth in the written forest. -/
+theorem C16_depth (w : WalkCfg) (s : Start) (hf : s.floats = []) (br : Branch) (hb : s.begin.branch = some br) :
+    depthOf (walkStart w s).edges (walkStart w s).nodes.length = heightGF (den br .nil) := by
+  rw [walkStart_eq_denStart]
+  simp only [denStart, hf, List.foldl_nil, hb]
+  obtain ⟨hn, he⟩ := flatten_edges w (den br .nil) 0 (addNode w s.begin.d (s.begin.config.getD []) WState.init).2
+    (by simp [addNode, WState.init])
+  have hn1 : (addNode w s.begin.d (s.begin.config.getD []) WState.init).2.nodes.length = 1 := by simp [addNode, WState.init]
+  have he0 : (addNode w s.begin.d (s.begin.config.getD []) WState.init).2.edges = [] := by simp [addNode, WState.init]
+  have hid : (addNode w s.begin.d (s.begin.config.getD []) WState.init).1 = 0 := by simp [addNode, WState.init]
+  rw [hid, he, he0, hn1, List.nil_append, hn, List.length_append, hn1, preNames_length]
+  exact depth_spec w (den br .nil)
 
 end Gly.Props.C16
